@@ -138,16 +138,6 @@ def c03_object_reduction(rec, params):
 
 
 @classifier
-def c03_all_bool_reduction(rec, params):
-    case = rec.get('case') or {}
-    if case.get('op') not in params.get('ops', []):
-        return False
-    src = case.get('f') or {}
-    cols = src.get('cols', [])
-    return bool(cols) and all(c['dt'][0] == 'b' for c in cols)
-
-
-@classifier
 def zero_sized_source_error(rec, params):
     cs = (rec.get('case') or {}).get('cs') or {}
     act = rec.get('actual') or {}
@@ -207,12 +197,6 @@ def c15_object_row_dtype(rec, params):
         lines = [c['vals'] for c in f['cols']] if cs['axis'] == 0 else [[c['vals'][i] for c in f['cols']] for i in range(len(f['index']))]
         return any(line and all(na(v) for v in line) for line in lines)
     return False
-
-
-@classifier
-def c15_all_bool_sum(rec, params):
-    cs, kinds = _kinds(rec)
-    return bool(kinds) and all(k == 'b' for k in kinds) and cs.get('fn') in ('sum', 'prod') and cs.get('axis') == 0
 
 
 @classifier
